@@ -56,7 +56,149 @@ fn mode_class(mode: &str) -> &str {
     mode.split('/').next().unwrap_or(mode)
 }
 
+/// batteries are ordinary parsers of the library: any number of `-v`/`-q`, in any spelling and
+/// order, gives the clamped level (`verbose_and_quiet_by_number`) or the clamped element
+/// (`verbose_by_slice`); `toggle_flag` gives the last of its two names. Never a panic, the same
+/// answer twice.
+#[cfg(feature = "bat")]
+fn batteries_case(case: &mut Case) {
+    use bpaf::batteries::{toggle_flag, verbose_and_quiet_by_number, verbose_by_slice};
+    use bpaf::Parser;
+    let mut rng = case.rng(7);
+    let offset = rng.below(4) as isize;
+    let min = -(rng.below(3) as isize);
+    let max = offset + rng.below(4) as isize;
+    // argument vector: -v, -q, --verbose, --quiet, clusters of both, toggles
+    let mut argv: Vec<String> = Vec::new();
+    let (mut v, mut q) = (0isize, 0isize);
+    let mut toggle: Option<bool> = None;
+    for _ in 0..rng.below(9) {
+        match rng.below(7) {
+            0 => {
+                argv.push("-v".into());
+                v += 1;
+            }
+            1 => {
+                argv.push("-q".into());
+                q += 1;
+            }
+            2 => {
+                argv.push("--verbose".into());
+                v += 1;
+            }
+            3 => {
+                argv.push("--quiet".into());
+                q += 1;
+            }
+            4 => {
+                let mut c = String::from("-");
+                for _ in 0..2 + rng.below(6) {
+                    if rng.chance(1, 2) {
+                        c.push('v');
+                        v += 1;
+                    } else {
+                        c.push('q');
+                        q += 1;
+                    }
+                }
+                argv.push(c);
+            }
+            5 => {
+                argv.push("--on".into());
+                toggle = Some(true);
+            }
+            _ => {
+                argv.push("--off".into());
+                toggle = Some(false);
+            }
+        }
+    }
+    let refs: Vec<&str> = argv.iter().map(String::as_str).collect();
+    let want_num = (v - q + offset).clamp(min, max);
+    let want_idx = (v - q + offset).clamp(0, 3) as usize;
+    let num = {
+        let level = verbose_and_quiet_by_number(offset, min, max);
+        let tg = toggle_flag(bpaf::long("on"), true, bpaf::long("off"), false);
+        bpaf::construct!(level, tg).to_options()
+    };
+    let sl = {
+        let level = verbose_by_slice(offset as usize, [10usize, 11, 12, 13]);
+        let tg = toggle_flag(bpaf::long("on"), true, bpaf::long("off"), false);
+        bpaf::construct!(level, tg).to_options()
+    };
+    for (name, got) in [
+        (
+            "verbose_and_quiet_by_number",
+            guarded(RENDER_FUEL, || {
+                (
+                    num.run_inner(&refs[..]).map_err(|_| ()),
+                    num.run_inner(&refs[..]).map_err(|_| ()),
+                )
+            })
+            .0
+            .map(|(a, b)| (a.clone() == b, a.map(|(l, t)| (l as i64, t)))),
+        ),
+        (
+            "verbose_by_slice",
+            guarded(RENDER_FUEL, || {
+                (
+                    sl.run_inner(&refs[..]).map_err(|_| ()),
+                    sl.run_inner(&refs[..]).map_err(|_| ()),
+                )
+            })
+            .0
+            .map(|(a, b)| (a.clone() == b, a.map(|(l, t)| (l as i64, t)))),
+        ),
+    ] {
+        case.rep.count(&format!("batteries:{}", name));
+        case.rep.max("batteries_quiet_minus_verbose_max", (q - v).max(0) as u64);
+        let want = if name == "verbose_by_slice" {
+            (10 + want_idx as i64, toggle)
+        } else {
+            (want_num as i64, toggle)
+        };
+        let witness = |observed: String| {
+            J::obj()
+                .set("parser", name)
+                .set("offset", offset as i64)
+                .set("min", min as i64)
+                .set("max", max as i64)
+                .set("argv", argv.join(" ").as_str())
+                .set("expected", format!("{:?}", want).as_str())
+                .set("observed", observed.as_str())
+        };
+        match got {
+            Err(o) => case.rep.violation(
+                &signature_of(&o, &format!("batteries/{}", name)),
+                "total",
+                case.index,
+                witness(o.show()),
+            ),
+            Ok((same, r)) => {
+                if !same {
+                    case.rep.violation(
+                        &format!("impure:batteries/{}", name),
+                        "purity",
+                        case.index,
+                        witness(format!("{:?}", r)),
+                    );
+                }
+                if r != Ok(want) {
+                    case.rep.violation(
+                        &format!("batteries-wrong-level:{}", name),
+                        "total",
+                        case.index,
+                        witness(format!("{:?}", r)),
+                    );
+                }
+            }
+        }
+    }
+}
+
 pub fn run_case(case: &mut Case) {
+    #[cfg(feature = "bat")]
+    batteries_case(case);
     let mut rng = case.rng(0);
     LONG_ITEM_MAX.with(|m| m.set(if case.thorough { 2048 } else { 1200 }));
     let spec = {
